@@ -325,6 +325,17 @@ def declaration_cases():
         bb = FixedMarginBusiness(b, 'BUS'); Household(b, 'HH'); Market(b, 'LAB'); Market(b, 'GOOD'); ConsolidatedGovernment(b, 'GOV')
         g.AddSupplier(ba, '0.2*' + h.GetVariableName('INC')); g.AddSupplier(bb); return m
 
+    def cross_flow_substring_currency_no_ext():
+        # the second country's currency code is a substring of the first one's: still two different currencies
+        m = Model(); a = Country(m, 'US'); b = Country(m, 'S')
+        ha = Household(a, 'HH'); hb = Household(b, 'HH'); ha.AddVariable('GIFT', '', '5.')
+        m.RegisterCashFlow(ha, hb, 'GIFT'); return m
+
+    def cross_flow_substring_currency_explicit_no_ext():
+        m = Model(); a = Country(m, 'AA', currency='EUR'); b = Country(m, 'BB', currency='EU')
+        ha = Household(a, 'HH'); hb = Household(b, 'HH'); hb.AddVariable('GIFT', '', '5.')
+        m.RegisterCashFlow(hb, ha, 'GIFT'); return m
+
     def gold_no_ext():
         m = Model(); c = Country(m, 'CO'); GoldStandardGovernment(c, 'GOV'); Household(c, 'HH'); FixedMarginBusiness(c, 'BUS')
         Market(c, 'LAB'); Market(c, 'GOOD'); return m
@@ -332,6 +343,8 @@ def declaration_cases():
             ('dunder-name-parameter', dunder_param), ('dunder-sector-code', dunder_sector_code), ('market-without-supplier', no_supplier),
             ('market-two-suppliers', two_suppliers), ('cross-flow-without-external', cross_flow_no_ext),
             ('cross-supplier-without-external', cross_supplier_no_ext), ('gold-without-external', gold_no_ext),
+            ('cross-flow-without-external:currency-code-substring', cross_flow_substring_currency_no_ext),
+            ('cross-flow-without-external:currency-code-substring-2', cross_flow_substring_currency_explicit_no_ext),
             ('market-two-suppliers-one-without-balance', two_suppliers_one_without_balance),
             ('market-two-suppliers-plain-sector', two_suppliers_plain_sectors),
             ('cross-residual-supplier-without-external', cross_residual_supplier_no_ext),
